@@ -7,6 +7,7 @@ import (
 	"io"
 	"os"
 	"path/filepath"
+	"runtime"
 	"runtime/debug"
 	"sort"
 	"strconv"
@@ -50,6 +51,19 @@ func (c *Cfg) has(list []string, s string) bool {
 
 type fatalExit struct{ msg string }
 
+// holeFatal is set when the CreateHoles goroutine ended in logrus.Fatalf (process death in production).
+var holeFatal string
+
+func lastLog() string {
+	logBuf.mu.Lock()
+	defer logBuf.mu.Unlock()
+	b := logBuf.b
+	if len(b) > 600 {
+		b = b[len(b)-600:]
+	}
+	return string(b)
+}
+
 var (
 	once      sync.Once
 	scratch   string
@@ -88,7 +102,16 @@ func setup() {
 		logBuf = &ring{}
 		logrus.SetOutput(logBuf)
 		logrus.SetLevel(logrus.WarnLevel)
-		logrus.StandardLogger().ExitFunc = func(code int) { panic(fatalExit{"logrus.Fatal: process would exit here"}) }
+		logrus.StandardLogger().ExitFunc = func(code int) {
+			if st := string(debug.Stack()); strings.Contains(st, "replica.CreateHoles") {
+				// the hole-punching goroutine called logrus.Fatalf: the replica process would die here.  Record it,
+				// start a fresh puncher and end this goroutine (returning would spin in its retry loop).
+				holeFatal = "logrus.Fatal in replica.CreateHoles: " + lastLog()
+				go replica.CreateHoles()
+				runtime.Goexit()
+			}
+			panic(fatalExit{"logrus.Fatal: process would exit here"})
+		}
 		util.VerifNoSync = true // durability is engine C's subject, not this one's
 		go replica.CreateHoles()
 	})
@@ -102,16 +125,18 @@ func Cleanup() {
 }
 
 type inst struct {
-	cfg    *Cfg
-	dir    string
-	srv    *replica.Server
-	m      *Model
-	obs    []string
-	viol   []kernel.Violation
-	cnt    map[string]int
-	trace  bool
-	notes  []string
-	inDeep bool
+	cfg       *Cfg
+	dir       string
+	srv       *replica.Server
+	m         *Model
+	obs       []string
+	viol      []kernel.Violation
+	cnt       map[string]int
+	trace     bool
+	notes     []string
+	inDeep    bool
+	hold      *replica.VerifHold // non-nil while the hole-punching goroutine is stalled (held-hole schedules)
+	sinceHold string
 }
 
 func (x *inst) violate(oracle, sig, detail string) {
@@ -262,6 +287,34 @@ func (x *inst) shutdown() {
 	defer func() { recover() }()
 	if x.srv != nil && x.srv.Replica() != nil {
 		x.guard("shutdown", func() error { return x.srv.Close() })
+	}
+	if x.hold != nil {
+		if !x.hold.Over() {
+			replica.VerifDiscardHoles() // nothing of this path may reach the next one
+		}
+		x.hold = nil
+	}
+	holeFatal = ""
+}
+
+// afterEvent: default schedule = every hole queued by the event is punched before the next event; while the puncher
+// is held nothing is flushed.  A drain request (Close, RemoveDiffDisk, ReplaceDisk) ends a hold by itself.
+func (x *inst) afterEvent(ev string) {
+	if x.hold != nil && x.hold.Over() {
+		x.hold = nil
+		x.observe("hold ended by a drain request")
+	}
+	if x.hold == nil {
+		replica.VerifFlushHoles()
+	}
+	if k := strings.Split(ev, ":")[0]; k != "Hold" && k != "Release" && k != "W" && k != "R" && !strings.Contains(x.sinceHold, k) {
+		x.sinceHold += k + "+"
+	}
+	if holeFatal != "" {
+		// signature: the kinds of events the stalled puncher was overtaken by (one of them closed the files)
+		x.violate("hole-puncher-fatal", "hole-puncher-fatal:"+strings.TrimSuffix(x.sinceHold, "+"), "after "+ev+": "+holeFatal)
+		holeFatal = ""
+		ExitAfter = true
 	}
 }
 
@@ -459,6 +512,18 @@ func (x *inst) apply(ev string) {
 			m.Rev++
 		}
 		m.Dirty = true
+	case "Hold":
+		// from now on the hole-punching goroutine is slow: queued holes stay queued across the following events
+		x.hold = replica.VerifHoldHoles()
+		x.sinceHold = ""
+		x.observe("Hold")
+	case "Release":
+		if x.hold != nil {
+			n := len(replica.VerifQueuedHoles())
+			x.hold.Release()
+			x.hold = nil
+			x.observe("Release %d", n)
+		}
 	case "Grow":
 		nb := len(m.Live)/SPB + atoi(f[1])
 		err := x.guard(ev, func() error { return x.srv.Resize(strconv.Itoa(nb * Block)) })
@@ -471,10 +536,7 @@ func (x *inst) apply(ev string) {
 	default:
 		x.applyMgmt(ev, f)
 	}
-	// every hole queued by this event is punched before the next event (default schedule)
-	if x.srv.Replica() != nil || true {
-		replica.VerifFlushHoles()
-	}
+	x.afterEvent(ev)
 }
 
 func (x *inst) prepare(ev, name string) (ops []replica.PrepareRemoveAction, err error) {
